@@ -809,7 +809,7 @@ impl<'a> AnalyzeContext<'a, '_> {
             1
         };
 
-        if let Some(idx_typ) = indexes.get(idx - 1) {
+        if let Some(idx_typ) = idx.checked_sub(1).and_then(|idx| indexes.get(idx)) {
             if let Some(idx_typ) = idx_typ {
                 Ok(*idx_typ)
             } else {
@@ -2730,6 +2730,30 @@ type arr_t is array (integer range 0 to 3) of integer;
             Ok(ResolvedName::Expression(DisambiguatedType::Unambiguous(
                 test.lookup_type("integer")
             )))
+        );
+    }
+
+    #[test]
+    fn array_type_attribute_index_zero_is_out_of_range() {
+        let test = TestSetup::new();
+        test.declarative_part(
+            "
+type arr_t is array (integer range 0 to 3, character range 'a' to 'c') of integer;
+        ",
+        );
+        let code = test.snippet("arr_t'left(0)");
+        let mut diagnostics = Vec::new();
+        assert_eq!(
+            test.name_resolve(&code, None, &mut diagnostics),
+            Err(EvalError::Unknown)
+        );
+        check_diagnostics(
+            diagnostics,
+            vec![Diagnostic::new(
+                code.s1("0"),
+                "Index 0 out of range for array with 2 dimensions, expected 1 to 2",
+                ErrorCode::DimensionMismatch,
+            )],
         );
     }
 
